@@ -206,6 +206,9 @@ def histories(draw, tier):
                 last = next_index(draw, p, last, None)
                 ks.append(last)
             written.extend(ks)
+            if N > 1 and draw(st.integers(0, 2)) == 0:
+                # one call, indices NOT in ascending order (element i of the data still belongs to index i of the call)
+                ks = list(draw(st.permutations(ks)))
             if kind == "wd":
                 steps.append({"s": "wd", "ks": ks, "data": draw(dict_of_arrays(specs, N))})
             else:
@@ -412,8 +415,21 @@ def run_case(case, visible_hook=None):
             for f_ in fn:
                 os.utime(os.path.join(dp, f_), (946684800, 946684800))
         keys_all = sorted(model)
+        # ... except one: another process has just begun the file of the period after the newest sample (created, not yet
+        # a valid HDF5 file).  Readers skip it; none may remove it - the other process would lose what it is writing
+        junk = None
+        if case.get("junk", True) and keys_all and C >= 60:  # (its age is judged against the file cadence: a wide margin)
+            jt = (M.exact_file_ts(keys_all[-1], n, d, C) // C + 1) * C
+            jp = os.path.join(md, os.path.dirname(M.exact_path(M.boundary_index(jt // C, n, d, C), n, d, C, S, p["prefix"])), "%s@%d.h5" % (p["prefix"], jt))
+            if not os.path.exists(jp):
+                os.makedirs(os.path.dirname(jp), exist_ok=True)
+                with open(jp, "wb") as f_:
+                    f_.write(b"\x89HDF\r\n\x1a\n" + b"\0" * 40)
+                junk = jp
         for qi, q in enumerate(case["queries"]):
             res.evaluations += 1
+            if junk is not None and os.path.exists(junk):
+                os.utime(junk)  # the other process is still writing: modified "now"
             r = readers[qi % len(readers)]
             a, b = q["a"], q["b"]
             inr = [k for k in keys_all if a <= k <= b]
@@ -464,6 +480,8 @@ def run_case(case, visible_hook=None):
                         fail("flatdict-index", "read_flatdict(%d,%d) index %r expected %r" % (a, b, list(fd["index"])[:8], inr[:8]))
             except Exception as e:
                 fail("query-exception:%s:%s" % (q["q"], type(e).__name__), "%r: %s" % (q, e))
+        if junk is not None and not os.path.exists(junk):
+            fail("reader-removed-file-being-written", "%s (created seconds ago by another process) was deleted by a read" % os.path.relpath(junk, md))
     res.nontrivial = nt
     kinds = {s["s"] for s in case["steps"]}
     for k in kinds:
